@@ -14,8 +14,8 @@ def norm(x):
     return sx(x)
 
 
-class Timeout(Exception):
-    pass
+class Timeout(BaseException):
+    """not an Exception: `except Exception` in the engine or the harness must not swallow it"""
 
 
 def _alarm(signum, frame):
@@ -48,6 +48,17 @@ def three_way(rep, drv, ops, label, fuel=4000, skip_ref_ops=()):
     rep.evaluations += 1
     real, err = run_real(ops)
     texts = [S.program_text(op[2]) for op in ops if op[0] == 'load']
+    if err is not None and err.startswith('timeout'):
+        # not finishing is a violation only if the search is small: the model must finish it easily
+        try:
+            t0 = __import__('time').time()
+            m = drv.ask(R.scenario_model(ops, 'reference', fuel))
+            if 'oof' in sx(m) or __import__('time').time() - t0 > 3.0:
+                rep.count('both-exceed-budget-skipped')
+                return 'skipped'
+        except common.ModelTimeout:
+            rep.count('both-exceed-budget-skipped')
+            return 'skipped'
     if err is not None:
         rep.violation({'kind': 'real code raised', 'error': err, 'ops': ops_json(ops), 'prolog': texts, 'label': label},
                       known_key=None)
